@@ -853,6 +853,99 @@ pub fn random_op(r: &mut Rng) -> Op {
     }
 }
 
+impl Op {
+    /// every byte-string argument of the operation (keys and values)
+    pub fn args(&self) -> Vec<Vec<u8>> {
+        match self {
+            Op::SetLanguage(a) | Op::RemoveKeyword(a) | Op::SetAttribute(a) | Op::RemoveAttribute(a) | Op::SetTlang(a)
+            | Op::RemoveTfield(a) | Op::AddTag(a) | Op::RemoveTag(a) | Op::QKeyword(a) | Op::QHasAttribute(a)
+            | Op::QTfield(a) | Op::QHasTag(a) | Op::QHasVariant(a) => vec![a.clone()],
+            Op::SetScript(a) | Op::SetRegion(a) => a.iter().cloned().collect(),
+            Op::SetVariants(v) => v.clone(),
+            Op::SetKeyword(k, v) | Op::SetTfield(k, v) => {
+                let mut o = vec![k.clone()];
+                o.extend(v.iter().cloned());
+                o
+            }
+            _ => vec![],
+        }
+    }
+    /// the same operation with one argument replaced by `a` (the key or the first value for the two-level ones)
+    pub fn with_arg(&self, a: Vec<u8>, second: bool) -> Op {
+        match self {
+            Op::SetLanguage(_) => Op::SetLanguage(a),
+            Op::RemoveKeyword(_) => Op::RemoveKeyword(a),
+            Op::SetAttribute(_) => Op::SetAttribute(a),
+            Op::RemoveAttribute(_) => Op::RemoveAttribute(a),
+            Op::SetTlang(_) => Op::SetTlang(a),
+            Op::RemoveTfield(_) => Op::RemoveTfield(a),
+            Op::AddTag(_) => Op::AddTag(a),
+            Op::RemoveTag(_) => Op::RemoveTag(a),
+            Op::QKeyword(_) => Op::QKeyword(a),
+            Op::QHasAttribute(_) => Op::QHasAttribute(a),
+            Op::QTfield(_) => Op::QTfield(a),
+            Op::QHasTag(_) => Op::QHasTag(a),
+            Op::QHasVariant(_) => Op::QHasVariant(a),
+            Op::SetScript(_) => Op::SetScript(Some(a)),
+            Op::SetRegion(_) => Op::SetRegion(Some(a)),
+            Op::SetVariants(v) => {
+                let mut v = v.clone();
+                if v.is_empty() || second {
+                    v.push(a);
+                } else {
+                    v[0] = a;
+                }
+                Op::SetVariants(v)
+            }
+            Op::SetKeyword(k, v) | Op::SetTfield(k, v) => {
+                let (mut k, mut v) = (k.clone(), v.clone());
+                if second {
+                    if v.is_empty() {
+                        v.push(a);
+                    } else {
+                        v[0] = a;
+                    }
+                } else {
+                    k = a;
+                }
+                if matches!(self, Op::SetKeyword(..)) {
+                    Op::SetKeyword(k, v)
+                } else {
+                    Op::SetTfield(k, v)
+                }
+            }
+            other => other.clone(),
+        }
+    }
+}
+
+/// A random history whose operations share arguments: one operation in eight takes one of its arguments from an
+/// earlier operation of the same history (of any kind). The text a value already holds in one container then arrives
+/// as the argument of an operation on another container, or of the remover / query of the same one - independent pool
+/// draws produce that only by accident.
+pub fn random_history(r: &mut Rng, len: usize) -> Vec<Op> {
+    let mut recent: Vec<Vec<u8>> = Vec::with_capacity(16);
+    let mut out = Vec::with_capacity(len);
+    for _ in 0..len {
+        let mut op = random_op(r);
+        if !recent.is_empty() && r.chance(1, 8) {
+            let a = r.pick(&recent).clone();
+            let second = r.chance(1, 2);
+            op = op.with_arg(a, second);
+        }
+        for a in op.args() {
+            if recent.len() < 16 {
+                recent.push(a);
+            } else {
+                let i = r.below(16);
+                recent[i] = a;
+            }
+        }
+        out.push(op);
+    }
+    out
+}
+
 /// Run a whole history from a start string; returns the failures with the step index.
 pub fn run_history(start: &str, ops: &[Op], likely: Option<&Likely>) -> Vec<(usize, Fail)> {
     let mut out = vec![];
